@@ -77,6 +77,12 @@ def run(ctx):
     ctx.extra["lock_program_shapes"] = [{"prog": l["prog"], "operations": l["all"]} for l in lines]
     ctx.extra["lock_users_not_recorded"] = uncovered
     unbalanced = [l for l in lines if sum(1 if o in ("RLock", "Lock") else -1 for o in l["prog"]) != 0]
+    # a lock that is still held after the operation returned blocks every later reload for good ("every operation completes")
+    for p in progs:
+        if p.get("leaked"):
+            ctx.violation({"op": "lock-leak", "operation": p["name"].split("@")[0].split("#")[0], "state": "empty" if "@empty" in p["name"] else "loaded"},
+                          f"after {p['name']} returned, a writer (AddEpoch / ReplaceOrAddEpoch / RemoveEpoch) can no longer take the epoch-set lock: "
+                          f"the operation's lock program is {p['prog']} (lock leaked); every later reload and, behind it, every query blocks", obs=p)
     if not any("Lock" in l["prog"] for l in lines):
         raise Inconclusive("no writer program recorded")
     progfile = ctx.write_ndjson("programs.ndjson", [{"name": l["name"], "prog": l["prog"]} for l in lines])
@@ -111,8 +117,13 @@ def run(ctx):
     # ---- R3c: stress
     if not ctx.replay:
         obs += ctx.go_run(b, "^TestVerifC09Stress$", out="obs_stress.ndjson", timeout_s=2400)
+    if not ctx.replay:
+        obs += ctx.go_run(b, "^TestVerifC09Atomic$", out="obs_atomic.ndjson", timeout_s=1200)
     rejected = ctx.r4_judge(["Trace_EpochSet"], "Trace_EpochSet", obs, timeout_s=1800)
     for o in obs:
+        if o["kind"] == "linpair":
+            ctx.count(sha(["linpair", o["op1"], o["op2"], o["gateAt"]]), o["gateAt"] > 0)
+            continue
         if o["kind"] == "replay":
             ctx.count(sha(["replay", o["ops"], o["case"]]), True)
             if o["outcome"] in ("diverged", "unreplayable", "completed"):
@@ -125,6 +136,11 @@ def run(ctx):
             ctx.nontrivial.add(sha(["stress-listings", len(o["listings"])]))
     for i in rejected:
         o = obs[i]
+        if o["kind"] == "linpair":
+            ctx.violation({"op": "atomicity", "op1": o["op1"].split("(")[0], "op2": o["op2"].split("(")[0]},
+                          f"{o['op1']} parked before its lock acquisition #{o['gateAt']} while {o['op2']} ran: outcome {o['inter']} equals neither sequential order "
+                          f"({o['seq12']} / {o['seq21']}) {o['detail']}"[:900], obs=o)
+            continue
         if o["kind"] == "replay":
             ctx.violation({"op": "deadlock", "ops": sorted(o["ops"])},
                           f"operations {o['ops']} deadlock on the real MultiEpoch when interleaved as TLC's schedule prescribes: {o['detail']}; goroutine states {o['blocked']}",
